@@ -416,7 +416,7 @@ def save_replay(prop, doc):
     d = os.path.join(VERIF, "replays", prop)
     os.makedirs(d, exist_ok=True)
     h = hashlib.sha1(json.dumps(doc, sort_keys=True).encode()).hexdigest()[:12]
-    p = os.path.join(d, "%s-%s.json" % (doc.get("case", "case"), h))
+    p = os.path.join(d, "%s-%s.json" % (re.sub(r"[^A-Za-z0-9_.+-]", "_", str(doc.get("case", "case")))[:80], h))
     with open(p, "w") as f:
         json.dump(doc, f, indent=1, sort_keys=True)
     return p
